@@ -95,7 +95,9 @@ func nz(l *spb.Uint128) *spb.Uint128 {
 
 var elecFields = []elecField{
 	{name: "absent", set: func(*spb.FlushRequest, *spb.Uint128) {}, rel: func(*spb.Uint128) string { return "absent" }},
-	{name: "override", set: func(r *spb.FlushRequest, _ *spb.Uint128) { r.Election = &spb.FlushRequest_Override{Override: &spb.Empty{}} }, rel: func(*spb.Uint128) string { return "override" }},
+	{name: "override", set: func(r *spb.FlushRequest, _ *spb.Uint128) {
+		r.Election = &spb.FlushRequest_Override{Override: &spb.Empty{}}
+	}, rel: func(*spb.Uint128) string { return "override" }},
 	idField("zero", func(*spb.Uint128) *spb.Uint128 { return &spb.Uint128{} }),
 	idField("equal", func(l *spb.Uint128) *spb.Uint128 { l = nz(l); return &spb.Uint128{High: l.High, Low: l.Low} }),
 	idField("low-1", func(l *spb.Uint128) *spb.Uint128 { l = nz(l); return &spb.Uint128{High: l.High, Low: l.Low - 1} }),
@@ -117,7 +119,9 @@ var niFields = []niField{
 	{name: "absent", set: func(*spb.FlushRequest) {}},
 	{name: "empty-name", set: func(r *spb.FlushRequest) { r.NetworkInstance = &spb.FlushRequest_Name{Name: ""} }},
 	{name: "unknown", set: func(r *spb.FlushRequest) { r.NetworkInstance = &spb.FlushRequest_Name{Name: "NOSUCH"} }},
-	{name: "default", valid: true, set: func(r *spb.FlushRequest) { r.NetworkInstance = &spb.FlushRequest_Name{Name: server.DefaultNetworkInstanceName} }, targets: func(s gen.Space) []string { return []string{s.Default} }},
+	{name: "default", valid: true, set: func(r *spb.FlushRequest) {
+		r.NetworkInstance = &spb.FlushRequest_Name{Name: server.DefaultNetworkInstanceName}
+	}, targets: func(s gen.Space) []string { return []string{s.Default} }},
 	{name: "vrf1", valid: true, set: func(r *spb.FlushRequest) { r.NetworkInstance = &spb.FlushRequest_Name{Name: "VRF1"} }, targets: func(s gen.Space) []string { return []string{"VRF1"} }},
 	{name: "all", valid: true, set: func(r *spb.FlushRequest) { r.NetworkInstance = &spb.FlushRequest_All{All: &spb.Empty{}} }, targets: func(s gen.Space) []string { return s.NIs }},
 }
